@@ -13,7 +13,7 @@ E2E_NOTE = ("Trusted base: the harness (vmon/e2e.py hooks, shadow cluster, gener
 
 # id -> (technique, level text, design_ref, level_note)
 CLAIMED = {
-    "C01": ("online invariant monitor: independent shadow occupancy model re-checked after every mutation of a live worker, during full simulations and during direct-drive runs under a hostile (chaos) policy that also answers with batches",
+    "C01": ("online invariant monitor: independent shadow occupancy model re-checked after every mutation of a live worker, during full simulations and during direct-drive runs under a hostile (chaos) policy that also answers with batches and re-loads resident profiles; every applied profile load compared with the decided loading strategy",
             "held on the K generated worlds run end to end with the shadow-cluster monitor attached; every live place/remove/load/evict and every utilization row was compared with an occupancy model that shares no code with the ledger",
             "DESIGN.md 4/C01", E2E_NOTE),
     "C02": ("online per-task ordering automaton on Task.release/start/finish hooks during full simulations and direct-drive chaos-policy runs (multi-timestamp graphs, children with their own release times, policies that take simulated time to answer so that decisions arrive stale)",
@@ -31,13 +31,13 @@ CLAIMED = {
     "C07": ("hook on TaskGraph.notify_task_completion (return value, probability snapshot) + offline branch census per conditional block",
             "held on the observed conditional completions over generated conditional graphs (nested, several per graph, DAG-shaped branches) and random draws",
             "DESIGN.md 4/C07", E2E_NOTE),
-    "C08": ("offline trace checker: every CSV row and the end-of-run summary compared column by column with the harness' event log; CSVReader round trip",
+    "C08": ("offline trace checker: every CSV row and the end-of-run summary compared column by column with the harness' event log; CSVReader round trip; TASK_RELEASE rows of direct-drive runs (profiles of different graphs share names) against the harness' description",
             "held on the K generated traces, apart from the listed known findings",
             "DESIGN.md 4/C08", E2E_NOTE),
     "C04": ("reference-model monitor over direct-drive operation histories (random + exhaustive short sequences) comparing all public getters after every step (copies are mutated and drained like the original); idle-capacity hook in full simulations; plus the repository's own pinned tests run with this property's context-free monitors attached (vmon/suitemon.py)",
             "held on the K histories executed against Resources/Worker/WorkerPool and the e2e idle-worker checks; the 9-op/length<=4 sweep is complete, the rest sampled",
             "DESIGN.md 4/C04", "Trusted base: the instance-level occupancy model in vmon/checks/c04_ledger.py; small vectors (<=3 names x <=3 instances x quantity<=3)."),
-    "C16": ("differential monitor: EventTime operators vs integer microseconds; EventQueue histories vs a reference sorted list; plus the repository's own pinned tests run with this property's context-free monitors attached (vmon/suitemon.py)",
+    "C16": ("differential monitor: EventTime operators vs integer microseconds; EventQueue histories vs a reference sorted list; every pop of the simulator's own queue in real runs of retracting planners; plus the repository's own pinned tests run with this property's context-free monitors attached (vmon/suitemon.py)",
             "held on the sampled value triples over all 9 unit pairs (|us| < 2^53, edge values) and the queue histories incl. in-place retimes",
             "DESIGN.md 4/C16", "Trusted base: Python integers; the documented ordering key (time, type value, task unique name)."),
     "C17": ("differential monitor: Graph/TaskGraph/JobGraph routines vs brute force on enumerated and random DAGs, cyclic graphs, and graphs grown through their public mutators with every routine queried between mutations; plus the repository's own pinned tests run with this property's context-free monitors attached (vmon/suitemon.py)",
@@ -61,7 +61,7 @@ CLAIMED = {
     "C11": ("output monitor on every ILP / TetriSched-Gurobi / Z3 decision plus adversarial re-solves on the captured solver model (feasibility of 'child placed, parent not'; minimise child start - parent finish), live and shadow calls in full simulations, direct Z3 calls",
             "per captured model the probes are exact (gap 0): no feasible point of that model violates the order; held on the K models captured and the decisions returned, apart from the listed Z3 finding",
             "DESIGN.md 4/C11", E2E_NOTE + " Probes need a solver licence large enough for the model copy; failures are counted as tooling-inconclusive."),
-    "C12": ("output monitor on every enforcing policy's decision (admission, completion <= deadline), model probes (ILP: maximise completion subject to placed, gap 0; TetriSched: inspection of every placement variable), completion times of exact-runtime planner runs",
+    "C12": ("output monitor on every enforcing policy's decision (admission, completion <= deadline), model probes (ILP: maximise completion subject to placed, gap 0; TetriSched: inspection of every placement variable, for batches against every member's deadline), completion times of exact-runtime planner runs",
             "held on the K enforcing calls incl. hopeless and exactly-tight deadlines, the probed models and the completed tasks, apart from the listed TetriSched-CPLEX finding",
             "DESIGN.md 4/C12", E2E_NOTE),
     "C15": ("output monitor on every ClockworkScheduler decision inside full simulations of model-serving worlds (batch membership, size, model loaded, fit, earliest deadline, placed-once, admission)",
